@@ -203,6 +203,14 @@ def coq_eval(name, text, timeout=600):
 def coq_eval_many(items, timeout=600):
     """items: list of (name, text).  Runs up to NPROC coqc in parallel.  Returns {name: (rc, out)}."""
     os.makedirs(CASES, exist_ok=True)
+    # case files of earlier runs of the same property are stale: remove them (keeps build/cases small)
+    prefixes = {name.split('_')[0] for name, _ in items}
+    for fn in os.listdir(CASES):
+        if fn.split('_')[0] in prefixes or fn.lstrip('.').split('_')[0] in prefixes:
+            try:
+                os.remove(os.path.join(CASES, fn))
+            except OSError:
+                pass
     procs, res, pending = [], {}, list(items)
     def start(name, text):
         p = os.path.join(CASES, name + '.v')
